@@ -6,6 +6,7 @@ for seed in $(seq $1 $2); do
   for id in C01 C02 C03 C04 C05 C06 C07 C08 C09 C10 C11 C12 C13 C14 C15 C16 C17 C18 C19 C20; do
     out=$(VERIF_SEED=$seed timeout 3000 /venv/bin/python harness/check.py $id --tier quick 2>&1); r=$?
     echo "seed=$seed $id exit=$r $(echo "$out" | grep -E "^\[$id\]" | cut -c1-160)"
-    [ $r -ne 0 ] && echo "$out" | grep -E "VIOLATION|Traceback|Error" | cut -c1-300 | head -5
+    if [ $r -ne 0 ]; then bad=1; echo "$out" | grep -E "VIOLATION|Traceback|Error" | cut -c1-300 | head -5; fi
   done
 done
+exit ${bad:-0}
